@@ -147,6 +147,7 @@ def run(spec, progset=None, instructions=None, capture_preflush=False):
 
     fw, data, parset, settings = build(spec)
     m = Model(settings, fw, parset, progset, instructions)
+    m._verif_parset = parset
     pre = {}
     if capture_preflush:
         orig = m.flush_junctions
@@ -352,6 +353,28 @@ def random_spec(r, regime="calibrated", features=None):
                 p["min"] = 0
             if r.random() < 0.3 and p["format"] in ("rate", "probability"):
                 p["max"] = 2.0
+    # population aggregation through an interaction (SRC/TGT_POP_AVG/SUM), feeding a transition parameter
+    interactions = []
+    if n_pops > 1 and f.get("aggregation", r.random() < 0.35):
+        pairs = [[a, b, round(r.random() * 2, 3)] for a in pops for b in pops if r.random() < 0.8]
+        if pairs:
+            interactions.append({"name": "w0", "pairs": pairs})
+            a, b = r.choice(stocks), r.choice(stocks)
+            forms = [f"SRC_POP_AVG({a}, w0, {b})", f"SRC_POP_SUM({a}, w0)", f"TGT_POP_AVG({a}, w0)", f"SRC_POP_AVG({a})", f"TGT_POP_SUM({a}, w0)", f"SRC_POP_AVG({a}, w0)"]
+            agg = {"name": "agg0", "format": "number", "timescale": None, "function": r.choice(forms), "min": None, "max": None, "timed": False, "targetable": False, "databook": False, "value": {}}
+            pars.append(agg)
+            used.add("agg0")
+            if r.random() < 0.6:  # a second aggregation sharing the same interaction
+                agg1 = dict(agg, name="agg1", function=r.choice(forms))
+                pars.append(agg1)
+                used.add("agg1")
+            cand = [p for p in pars if p["name"] in used and not p["timed"] and p["format"] in ("rate", "probability") and not p.get("function")]
+            if cand:
+                p = r.choice(cand)
+                p["function"] = f"{round(r.random(), 3)}*agg0/(alive+1)" + ("+0.01*agg1/(alive+1)" if "agg1" in used else "")
+                p["databook"] = False
+                p["value"] = {}
+                p["min"] = 0
     # transfers
     transfers = []
     if n_pops > 1 and f.get("transfers", r.random() < 0.6):
@@ -363,7 +386,7 @@ def random_spec(r, regime="calibrated", features=None):
                     pairs.append([a, b, _val(r, regime if units != "duration" else "calibrated", units)])
         if pairs:
             transfers.append({"name": "tra0", "units": units, "pairs": pairs})
-    spec = {"comps": comps, "characs": characs, "pars": [p for p in pars if p["name"] in used or p.get("timed")], "transitions": trans, "pops": pops, "transfers": transfers, "settings": [start, end, dt], "regime": regime}
+    spec = {"comps": comps, "characs": characs, "pars": [p for p in pars if p["name"] in used or p.get("timed")], "transitions": trans, "pops": pops, "transfers": transfers, "interactions": interactions, "settings": [start, end, dt], "regime": regime}
     # timed flag bookkeeping: a timed parameter that lost its link is dropped
     spec["pars"] = [p for p in spec["pars"] if p["name"] in used]
     return spec
